@@ -542,9 +542,15 @@ HalfB == {h \in [width : Widths, grp : Grps, prec : Precs, type : Types] :
 GenFields == {f \in {FieldRec(a.fill, a.align, a.sign, a.alt, a.zero, b.width, b.grp, b.prec, b.type) : a \in HalfA, b \in HalfB} :
                  NonDefault(f) >= 1 /\ NonDefault(f) <= MaxFields}
 \* the family of specs around the C-level integer path: [>-]? 0? width? [odxXc]?
-CoreWidths == IF Level = 1 THEN {-1, 1, 2, 5, 12, 252} ELSE {-1, 1, 2, 3, 5, 12, 25, 70, 251, 252, 253, 300}
+CoreWidths == IF Level = 1 THEN {-1, 1, 2, 5, 12, 252} ELSE {-1, 1, 2, 3, 5, 12, 25, 70, 251, 252, 253, 256, 300}
 CoreFields == {FieldRec(0, al, 0, FALSE, z, w, 0, -1, t) : al \in {0, cGt}, z \in BOOLEAN, w \in CoreWidths, t \in {0, ch_c, ch_d, ch_o, ch_x, ch_X}}
 CFamFields == {FieldRec(0, al, sg, FALSE, z, w, 0, -1, t) : al \in {0, cGt}, sg \in {0, cMinus}, z \in BOOLEAN, w \in {-1, 1, 5}, t \in {0, ch_c, ch_d, ch_x}}
+\* neighbours of that family which must NOT take the C path: other alignments, signs, '#', grouping
+NW == IF Level = 1 THEN {5} ELSE {-1, 5}
+NearFields == {FieldRec(0, al, 0, FALSE, z, w, 0, -1, t) : al \in {cLt, cCaret, cEq}, z \in BOOLEAN, w \in NW, t \in {0, ch_d, ch_x, ch_c}}
+              \cup {FieldRec(0, 0, sg, FALSE, z, w, 0, -1, t) : sg \in {cPlus, cSp}, z \in BOOLEAN, w \in NW, t \in {0, ch_d, ch_x}}
+              \cup {FieldRec(fi, cGt, 0, FALSE, FALSE, 5, 0, -1, t) : fi \in {42, c0}, t \in {0, ch_d, ch_c}}
+              \cup {FieldRec(0, 0, 0, alt, FALSE, w, g, -1, t) : alt \in BOOLEAN, w \in NW, g \in {0, cComma, cUnder}, t \in {ch_d, ch_x}}
 \* the family around the C-level float path: (.prec)? [eEfFgG]
 FFamFields == {FieldRec(0, 0, 0, FALSE, FALSE, -1, 0, p, t) : p \in Precs, t \in {ch_e, ch_E, ch_f, ch_F, ch_g, ch_G}}
 BadTexts == {<<42, 53, ch_d>>, <<53, cDot>>, <<cComma, cUnder, ch_d>>, <<cUnder, cComma, ch_d>>, <<ch_d, ch_d>>, <<cDot, ch_d>>, <<53, cSp, ch_d>>, <<cPlus>>,
@@ -557,7 +563,8 @@ FstrCases == {FCase(Render(f), 0, "core") : f \in CoreFields}
              \cup {FCase(Render(f), cv, "conv") : f \in (IF Level = 1 THEN {g \in CFamFields : g.sign = 0} ELSE CFamFields) \cup FFamFields,
                                                    cv \in (IF Level = 1 THEN {ch_r} ELSE Convs)}
              \cup {FCase(Render(f), 0, "ffam") : f \in FFamFields}
-             \cup {FCase(Render(f), 0, "gen") : f \in GenFields \ (CoreFields \cup CFamFields \cup FFamFields)}
+             \cup {FCase(Render(f), 0, "near") : f \in NearFields \ (CoreFields \cup CFamFields)}
+             \cup {FCase(Render(f), 0, "gen") : f \in GenFields \ (CoreFields \cup CFamFields \cup FFamFields \cup NearFields)}
              \cup {FCase(Render(f), cv, "gen") : f \in {g \in GenFields : (Hash(g) + Seed) % 3 = 0}, cv \in Convs}
              \cup {FCase(t, 0, "bad") : t \in BadTexts} \cup {FCase(<<>>, cv, "gen") : cv \in Convs \cup {0}}
 IsOrdSpec(s) == s # <<>> /\ s[Len(s)] = ch_c
@@ -566,6 +573,7 @@ OrdLight == {I(x) : x \in {-1, 65, 233, 8364, 128512, 55296, 1114112, 2097152}}
 FstrOps(c) ==
   CASE c.cls = "core" -> IntOps(IF c.s \in CoreFull THEN (IF IsOrdSpec(c.s) THEN OrdCands ELSE IntCands) ELSE (IF IsOrdSpec(c.s) THEN OrdLight ELSE LightCands), TRUE)
                          \cup {o \in OtherOps : o.car = "bint"} \cup {Op("obj", 0, v) : v \in ObjInts}
+    [] c.cls = "near" -> IntOps(IF IsOrdSpec(c.s) THEN OrdLight ELSE LightCands, FALSE) \cup {o \in OtherOps : o.car = "bint"} \cup {Op("obj", 0, v) : v \in {I(-5), I(255)}}
     [] c.cls = "cfam" -> IntOps(IF IsOrdSpec(c.s) THEN OrdLight ELSE LightCands, FALSE) \cup {o \in OtherOps : o.car = "bint"} \cup {Op("obj", 0, v) : v \in ObjInts}
     [] c.cls = "conv" -> ConvOps
     [] c.cls = "ffam" -> IntOps({I(-9), I(100)}, FALSE) \cup OtherOpsF(FloatPool) \cup ObjOpsF(FloatPool)
